@@ -3,7 +3,7 @@
    Request = opcode :: length-prefixed strings. *)
 From Coq Require Import List NArith Bool Arith.
 Import ListNotations.
-From PV Require Import Regex Base UnicodeTables LexTables PyRepr Lexer AstDefs AstSpec AstImpl NodeModel.
+From PV Require Import Regex Base UnicodeTables LexTables PyRepr Lexer AstDefs AstSpec AstImpl NodeModel ParserTables ParserBase ParserDecl ParserMain.
 Open Scope N_scope.
 
 Definition US : N := 31.  (* field separator *)
@@ -153,11 +153,78 @@ Definition api_visit (req: list N) : str :=
   | _ => s2l "BADREQ"
   end.
 
+(* ---- whole parser ------------------------------------------------------------------ *)
+Definition pos := (N * N)%type.
+
+Definition to_pitem (i: raw_item) : pitem pos :=
+  match i with
+  | RTok k v line col f => PTok pos k v (line, col) f
+  | RErr msg line col f => PErr pos msg (line, col) f
+  | RCrash => PCrash pos
+  end.
+
+Definition show_coord (c: coord pos) : str :=
+  cfile c ++ [58] ++ dec_of_N (fst (cpos c)) ++ [58] ++ dec_of_N (snd (cpos c)).
+
+Fixpoint show_ast (fuel: nat) (wc: bool) (v: node pos) : str :=
+  match fuel with
+  | O => s2l "<deep>"
+  | S f =>
+    match v with
+    | VNone => s2l "None"
+    | VStr s => py_repr s
+    | VList l => [91] ++ join_str [44] (map (show_ast f wc) l) ++ [93]
+    | VNode c fs co =>
+      [40] ++ cls_name c ++ concat_str (map (fun x => 32 :: show_ast f wc x) fs) ++
+      (if wc then s2l " @" ++ match co with Some c => show_coord c | None => s2l "None" end else []) ++ [41]
+    end
+  end.
+
+Definition show_loc (l: errloc pos) : str :=
+  match l with
+  | L_coord _ c => show_coord c
+  | L_file _ f => f
+  | L_raw _ s => s
+  | L_none _ => s2l "None"
+  end.
+
+Definition crash_name (k: crash_kind) : str :=
+  match k with
+  | CK_Assertion => s2l "AssertionError"
+  | CK_Attribute => s2l "AttributeError"
+  | CK_Value => s2l "ValueError"
+  | CK_Index => s2l "IndexError"
+  | CK_Type => s2l "TypeError"
+  end.
+
+Definition run_parse (text filename: str) : res pos (node pos * pstate pos) :=
+  let '(items, stf, _) := raw_lex (S (length text)) (init_lexst filename) text in
+  let fuel := (4 * length items + 3000)%nat in
+  parse_tokens pos fuel (init_pstate pos (map to_pitem items) (l_file stf) filename).
+
+Definition show_result (wc: bool) (r: res pos (node pos * pstate pos)) : str :=
+  match r with
+  | Ok (ast, st) => fields [s2l "OK"; show_ast (N.to_nat 100000) wc ast; dec_of_N (ticks pos st)]
+  | Err l m => fields [s2l "E"; show_loc l ++ s2l ": " ++ m]
+  | Crash k => fields [s2l "C"; crash_name k]
+  | OutOfFuel => s2l "R"
+  end.
+
+Definition api_parse (req: list N) : str :=
+  match req with
+  | wc :: r =>
+    let (fname, r1) := rd_str r in
+    let (text, _) := rd_str r1 in
+    show_result (nb wc) (run_parse text fname)
+  | _ => s2l "BADREQ"
+  end.
+
 Definition handle (req: list N) : str :=
   match req with
   | 1 :: r => api_lex r
   | 2 :: r => api_master r
   | 3 :: r => api_repr r
+  | 20 :: r => api_parse r
   | 10 :: r => api_children r
   | 11 :: r => api_iter r
   | 12 :: r => api_show r
